@@ -621,6 +621,9 @@ impl Session {
                 if fail.sig == "HARNESS-FAULT" {
                   if counting {
                     println!("INCONCLUSIVE property={id}: {}", fail.msg);
+                    for record in background_panics().iter().rev().take(4) {
+                      println!("background panic [{}] at {}: {}", record.thread, record.location, record.message);
+                    }
                     println!("case: {case:?}");
                     std::process::exit(2);
                   }
@@ -843,6 +846,18 @@ impl Session {
 
   /// Writes the evidence file and returns the process exit code.
   pub fn finish(self, meta: &Meta) -> i32 {
+    if std::env::var_os("ORDVERIF_DEBUG").is_some() {
+      if let Ok(stat) = std::fs::read_to_string("/proc/self/stat") {
+        let fields: Vec<&str> = stat.rsplit(')').next().unwrap_or("").split_whitespace().collect();
+        // after the command name: state is field 0; utime 11, stime 12, cutime 13, cstime 14
+        if fields.len() > 14 {
+          eprintln!(
+            "[debug] cpu ticks: self user {} sys {}; children user {} sys {}",
+            fields[11], fields[12], fields[13], fields[14]
+          );
+        }
+      }
+    }
     let stats = &self.stats;
     let labels = stats.labels.lock().unwrap().clone();
     let excluded = stats.excluded_known.lock().unwrap().clone();
